@@ -151,6 +151,8 @@ def run_concrete(ob, params, inputs):
                 out = ob.fn(**params)
             except symx.AssumptionFailed:
                 return None, "assumption_failed"
+            except Exception as e:  # the code under test raised something the harness does not anticipate
+                return None, f"exception:{type(e).__name__}"
         parts = {k: bool(v) for k, v in out.parts.items()}
         known = {k: bool(v) for k, v in out.known.items()}
         return {"parts": parts, "known": known, "obs": norm_obs_concrete(out.obs), "choices": dict(ctx.choices)}, None
@@ -209,10 +211,12 @@ def explore_case(ob, params, pid, tier):
                 out = ob.fn(**params)
             except symx.Infeasible:
                 st["infeasible"] += 1
-            except Exception:
-                st["error"] = traceback.format_exc()
-                ctx.end()
-                break
+            except Exception as e:
+                tb = traceback.format_exc()
+                if not _unexpected_exception(ob, params, ctx, e, st):
+                    st["error"] = tb
+                    ctx.end()
+                    break
             if out is not None:
                 st["paths"] += 1
                 if ctx.nontrivial:
@@ -245,6 +249,28 @@ def explore_case(ob, params, pid, tier):
     return st
 
 
+def _unexpected_exception(ob, params, ctx, exc, st):
+    """The code under test raised an exception the harness does not anticipate.  If the real (unshimmed)
+    code raises the same exception type on a witness of this path it is reported as a violation
+    (the obligations cannot even be evaluated); otherwise it is a harness error."""
+    model = ctx.model
+    if model is None:
+        r = ctx.check()
+        if r != z3.sat:
+            return False
+        model = ctx.solver.model()
+    inputs = symx.model_inputs(ctx, model)
+    conc, why = run_concrete(ob, params, inputs)
+    if conc is None and why == f"exception:{type(exc).__name__}":
+        st["paths"] += 1
+        st["reach"] = True
+        st["violations"].append({"obligation": ob.name, "params": _jsonable(params), "inputs": inputs,
+                                 "failing": [f"unexpected_{type(exc).__name__}"], "choices": dict(ctx.choices),
+                                 "concrete_failing": [f"unexpected_{type(exc).__name__}: {exc}"[:300]], "obs": None})
+        return True
+    return False
+
+
 def _finish_path(ob, params, pid, ctx, out, st, listed):
     parts = {k: L.b(v) for k, v in out.parts.items()}
     prop = z3.And(*parts.values()) if parts else z3.BoolVal(True)
@@ -269,21 +295,42 @@ def _finish_path(ob, params, pid, ctx, out, st, listed):
     if not z3.is_false(q):
         r = ctx.check(q)
         if r == z3.sat:
-            m = ctx.solver.model()
-            inputs = symx.model_inputs(ctx, m)
-            failing = [k for k, v in parts.items() if z3.is_false(m.eval(v, model_completion=True))]
-            rec = {"obligation": ob.name, "params": _jsonable(params), "inputs": inputs, "failing": failing,
-                   "choices": dict(ctx.choices)}
-            conc, why = run_concrete(ob, params, inputs)
-            if conc is not None and not all(conc["parts"].values()) and not any(
-                conc["known"].get(f) for f in regions
-            ):
-                rec["concrete_failing"] = [k for k, v in conc["parts"].items() if not v]
-                rec["obs"] = conc["obs"]
-                st["violations"].append(rec)
-            else:
-                rec["why"] = why or "property holds on the real code for the solver's inputs"
-                st["nonrepro"].append(rec)
+            # replay on the real code; a model sitting exactly on a decision boundary may behave differently
+            # in doubles, so a few further models of the same query are tried before giving up
+            ctx.solver.push()
+            ctx.solver.add(q)
+            try:
+                first = None
+                for attempt in range(5):
+                    if attempt:
+                        r = ctx.check()
+                        if r != z3.sat:
+                            break
+                    m = ctx.solver.model()
+                    inputs = symx.model_inputs(ctx, m)
+                    failing = [k for k, v in parts.items() if z3.is_false(m.eval(v, model_completion=True))]
+                    rec = {"obligation": ob.name, "params": _jsonable(params), "inputs": inputs, "failing": failing,
+                           "choices": dict(ctx.choices)}
+                    conc, why = run_concrete(ob, params, inputs)
+                    if conc is not None and not all(conc["parts"].values()) and not any(
+                        conc["known"].get(f) for f in regions
+                    ):
+                        rec["concrete_failing"] = [k for k, v in conc["parts"].items() if not v]
+                        rec["obs"] = conc["obs"]
+                        st["violations"].append(rec)
+                        first = None
+                        break
+                    rec["why"] = why or "property holds on the real code for the solver's inputs"
+                    first = first or rec
+                    block = [var != m.eval(var, model_completion=True) for _n, (kind, var) in ctx.inputs.items()
+                             if kind == "real"]
+                    if not block:
+                        break
+                    ctx.solver.add(z3.And(*block))
+                if first is not None:
+                    st["nonrepro"].append(first)
+            finally:
+                ctx.solver.pop()
         elif r == z3.unknown:
             st["unknown_final"] += 1
 
@@ -309,7 +356,10 @@ def _finish_path(ob, params, pid, ctx, out, st, listed):
             inputs = symx.model_inputs(ctx, model)
             sym_obs = norm_obs(out.obs, model)
             conc, why = run_concrete(ob, params, inputs)
-            if conc is None:
+            if conc is None and why and why.startswith("exception:"):
+                st["witness_mismatch"].append({"inputs": inputs, "symbolic": sym_obs, "concrete": why,
+                                               "params": _jsonable(params)})
+            elif conc is None:
                 st["witness_skipped"] += 1
             elif obs_equal(sym_obs, conc["obs"]):
                 st["witness_ok"] += 1
@@ -506,7 +556,8 @@ def _report(pid, tier, obligations, results, meta, wall, seed):
             "known_findings_hit": sorted(known_hits),
             "functions_encoded": meta.get("functions", []),
             "source_sha256": _source_hashes(meta.get("files", [])),
-            "bounds": meta.get("bounds", {}).get(tier, meta.get("bounds")),
+            "bounds": (meta.get("bounds", {}).get(tier, meta.get("bounds")) if isinstance(meta.get("bounds"), dict)
+                       else meta.get("bounds")),
             "outside_bounds": meta.get("outside", []),
             "stand_ins": meta.get("stand_ins", []),
             "patched_names": sorted(patched),
@@ -566,6 +617,10 @@ def replay(pid, obligations, path):
         print(f"replay: case {rec['params']} not found in obligation {ob.name}")
         return EXIT_HARNESS
     conc, why = run_concrete(ob, params, rec["inputs"])
+    if conc is None and why and why.startswith("exception:"):
+        print(f"replay: the code raised {why[10:]} on these inputs")
+        print(f"VIOLATION property={pid} replay={path}")
+        return EXIT_VIOLATION
     if conc is None:
         print(f"replay: {why}")
         return EXIT_INCONCLUSIVE
